@@ -1,6 +1,7 @@
 // C01: the interpolant reproduces the loaded model values at every loaded point, for all value arrays.
 // args: <grid spec> <script> [param]
 // scripts: load | reload | refine (param: classic|parents|direction|fds|stable|aniso|surplus) | construct (param: batch size) | construct1
+//          mixed (param: batch size): load, refinement left pending, construction, finish, load whatever is needed, refine, load
 #include "tgrid.hpp"
 
 static void check_reproduction(const TasmanianSparseGrid &grid, SymModel &model, const char *stage){
@@ -31,7 +32,11 @@ int main(int argc, char **argv){
   TasmanianSparseGrid grid; makeGrid(grid, g);
   SymModel model(g.outputs);
   int d = g.dims;
-  if (script == "load" || script == "reload" || script == "refine"){
+  auto refine_once = [&](double tol, int round)->void{
+    if (grid.isLocalPolynomial() || grid.isWavelet()) grid.setSurplusRefinement(tol, refine_classic, -1, g.ll);
+    else if (grid.isFourier() || round % 2 == 0 || !OneDimensionalMeta::isSequence(grid.getRule())) grid.setAnisotropicRefinement(type_iptotal, 1 + round, 0, g.ll);
+    else grid.setSurplusRefinement(tol, 0, g.ll); };
+  if (script == "load" || script == "reload" || script == "refine" || script == "mixed"){
     grid.loadNeededValues(model.values(grid.getNeededPoints(), d));
     check_reproduction(grid, model, "after load");
   }
@@ -56,9 +61,10 @@ int main(int argc, char **argv){
       check_reproduction(grid, model, round == 0 ? "after refine+load" : "after second refine+load");
     }
   }
-  if (script == "construct" || script == "construct1"){
+  if (script == "mixed"){ refine_once(fpsym_symbolic(0.05, 5, 0.0, 0.6), 0); fpsym_note("pending_before_construction", grid.getNumNeeded()); }   // left pending
+  if (script == "construct" || script == "construct1" || script == "mixed"){
     int batch = script == "construct1" ? 1 : atoi(param.c_str()); if (batch <= 0) batch = 1000000;
-    int budget = 3 * grid.getNumPoints() / 2 + 2, done = 0;
+    int budget = script == "mixed" ? 2 * batch : 3 * grid.getNumPoints() / 2 + 2, done = 0;
     grid.beginConstruction();
     while (done < budget){
       std::vector<double> cand;
@@ -73,6 +79,12 @@ int main(int argc, char **argv){
     }
     grid.finishConstruction();
     check_reproduction(grid, model, "after finishConstruction");
+  }
+  if (script == "mixed"){
+    fpsym_note("needed_after_construction", grid.getNumNeeded());
+    if (grid.getNumNeeded() > 0){ grid.loadNeededValues(model.values(grid.getNeededPoints(), d)); check_reproduction(grid, model, "construction, then load of the needed points"); }
+    refine_once(fpsym_symbolic(0.1, 6, 0.0, 0.6), 1);
+    if (grid.getNumNeeded() > 0){ grid.loadNeededValues(model.values(grid.getNeededPoints(), d)); check_reproduction(grid, model, "pending refinement, construction, refine+load"); }
   }
   fpsym_finish(); return 0;
 }
